@@ -8,6 +8,7 @@ import (
 	"flag"
 	"fmt"
 	"os"
+	"sort"
 	"strconv"
 	"strings"
 
@@ -145,8 +146,88 @@ func random(w *tr.W, r *rng.R, cases, maxN int) {
 	}
 }
 
+// big: sizes far beyond the exhaustive/random ones (and not multiples of small powers of two), with
+// unions that involve the LAST elements, the first ones, long chains and self unions; queries are
+// concentrated on the tail and on the touched elements.
+func big(w *tr.W, r *rng.R, thorough bool) {
+	sizes := []int{257, 1000, 4096, 4101, 5003}
+	if thorough {
+		sizes = append(sizes, 8191, 10007, 20011)
+	}
+	for _, n := range sizes {
+		for shape := 0; shape < 3; shape++ {
+			var ops []string
+			touched := map[int]bool{}
+			add := func(p, q int) {
+				ops = append(ops, fmt.Sprintf("U %d %d", p, q))
+				touched[p], touched[q] = true, true
+			}
+			switch shape {
+			case 0: // tail elements joined with the front and with each other
+				for k := 1; k <= 12; k++ {
+					add(n-k, (k*37)%n)
+					add(n-k, n-1-(k*5)%16)
+				}
+				add(n-1, 0)
+				add(0, n-1)
+				add(n-3, n-3)
+			case 1: // a long chain through the whole range in stride, then random unions
+				stride := n/61 + 1
+				for i := 0; i+stride < n; i += stride {
+					add(i+stride, i)
+				}
+				for k := 0; k < 60; k++ {
+					add(r.Intn(n), r.Intn(n))
+				}
+			case 2: // random unions biased to the last 16 indices, with invalid arguments mixed in
+				for k := 0; k < 150; k++ {
+					p, q := r.Intn(n), r.Intn(n)
+					if r.Chance(1, 3) {
+						p = n - 1 - r.Intn(16)
+					}
+					if r.Chance(1, 3) {
+						q = n - 1 - r.Intn(16)
+					}
+					if r.Chance(1, 20) {
+						q = []int{-1, n, n + 7}[r.Intn(3)]
+					}
+					add(p, q)
+					if r.Chance(1, 4) {
+						ops = append(ops, "N", fmt.Sprintf("C %d %d", p, q), fmt.Sprintf("F %d", p))
+					}
+				}
+			}
+			ops = append(ops, "N")
+			var ts []int
+			for t := range touched {
+				ts = append(ts, t)
+			}
+			sort.Ints(ts)
+			for _, t := range ts {
+				ops = append(ops, fmt.Sprintf("F %d", t))
+			}
+			for k := 0; k < 24; k++ {
+				ops = append(ops, fmt.Sprintf("F %d", n-1-k))
+			}
+			for i := 0; i+1 < len(ts); i++ {
+				ops = append(ops, fmt.Sprintf("C %d %d", ts[i], ts[i+1]), fmt.Sprintf("C %d %d", ts[i], ts[len(ts)-1-i]))
+			}
+			ops = append(ops, fmt.Sprintf("C %d %d", n-1, 0), fmt.Sprintf("F %d", n), fmt.Sprintf("C %d %d", n, 0), "N")
+			for _, impl := range impls {
+				runCase(w, impl, n, ops, false)
+			}
+		}
+	}
+	// degenerate constructors
+	for _, n := range []int{0, 1} {
+		for _, impl := range impls {
+			runCase(w, impl, n, []string{"N", "F 0", "U 0 0", "N", "C 0 0", "F -1", "C 0 1", "U 0 1", "N"}, false)
+		}
+	}
+}
+
 func main() {
-	mode := flag.String("mode", "exhaustive", "exhaustive|random")
+	mode := flag.String("mode", "exhaustive", "exhaustive|random|big")
 	tier := flag.String("tier", "quick", "quick|thorough")
 	replay := flag.String("replay", "", "case file to re-execute")
 	flag.Parse()
@@ -179,6 +260,8 @@ func main() {
 			exhaustive(w, 3, -1, 3, 3)
 			exhaustive(w, 4, 0, 3, 4)
 		}
+	case "big":
+		big(w, rng.FromEnv(170), thorough)
 	case "random":
 		r := rng.FromEnv(17)
 		if thorough {
